@@ -9,6 +9,7 @@
 //	                 word is the caller's (C10), the thread's no_new_privs bit afterwards is what was requested (C11; the
 //	                 thread is wired, created before any load and carries nothing)
 //	getinfo / table  the answer is the fresh one, and an entry of the name table maps back (C12)
+//	parse            a name parses to the same value, and a word that is no name is rejected, whatever was parsed before (C14)
 //	dump             compared as well, reported as a note (no statement speaks about Dump)
 //
 // A history runs in a process that is either ordinary or "bare" (root changed to an empty directory before the first call).
@@ -47,6 +48,7 @@ type call struct {
 	NNP  bool   `json:"nnp,omitempty"`
 	Name string `json:"name,omitempty"`
 	Act  string `json:"act,omitempty"`
+	Text string `json:"text,omitempty"`
 }
 
 type outcome struct {
@@ -263,6 +265,11 @@ func child() {
 			a := action(c.Act)
 			t, err := a.MarshalText()
 			o.Out = fmt.Sprintf("%s / %s / %v", a.String(), t, err)
+		case "parse":
+			var a seccomp.Action
+			var op seccomp.Operation
+			ea, eo := a.Unpack(c.Text), op.Unpack(c.Text)
+			o.Out = fmt.Sprintf("action %#x (%v) / operation %q (%v)", uint32(a), ea != nil, string(op), eo != nil)
 		default:
 			fmt.Fprintln(os.Stderr, "unknown op", c.Op)
 			os.Exit(3)
@@ -402,7 +409,7 @@ func main() {
 					return finding{Kind: kind, Why: why, Bare: j.Bare != "", History: h, Index: i, Observed: outs, Fresh: &f}
 				}
 				switch c.Op {
-				case "compile", "text", "resolve", "getinfo", "dump":
+				case "compile", "text", "resolve", "getinfo", "dump", "parse":
 					if o.Out != f.Out {
 						report(mk(c.Op, fmt.Sprintf("call %d of the history (%s) gives %q; as the only call of a fresh process it gives %q", i+1, key(c), o.Out, f.Out)))
 					}
